@@ -450,6 +450,24 @@ fn iir_line(rng: &mut Rng) -> String {
     format!("dsp iir ; {} ; {}\t{obs}", bits(&taps), bits(&input))
 }
 
+fn iirc_line(rng: &mut Rng) -> String {
+    use rustradio::iir_filter::ClampedFilter;
+    let n = rng.range(1, 6);
+    let mode = rng.below(2);
+    let taps: Vec<f32> = if mode == 1 { (0..n).map(|_| (rng.below(1999) as f32 - 999.0) / 500.0).collect() } else { rand_f32s(rng, n, 0) };
+    let ilen = rng.range(0, 60);
+    let input = rand_f32s(rng, ilen, mode);
+    let (mi, mx) = *rng.pick(&[(0.0f32, 1.0f32), (-1.0, 1.0), (-3.0, 7.5), (2.0, 2.0), (-100.0, 100.0)]);
+    let obs = match quiet(|| {
+        let mut f = IirFilter::new(&taps);
+        input.iter().map(|x| f.filter_clamped(*x, mi, mx)).collect::<Vec<f32>>()
+    }) {
+        Ok(v) => hash_f32(&v),
+        Err(_) => "panic".into(),
+    };
+    format!("dsp iirc ; {} ; {} {} ; {}\t{obs}", bits(&taps), mi.to_bits(), mx.to_bits(), bits(&input))
+}
+
 /// Batch size of FftFilter observed on the real block: feed one sample at a time until output appears.
 fn fftsize_line(ntaps: usize) -> String {
     let obs = quiet(|| -> Result<usize, String> {
@@ -496,6 +514,7 @@ pub fn run(args: &[String]) -> Vec<String> {
         out.push(dot_line(&mut rng));
         out.push(firn_line(&mut rng));
         out.push(iir_line(&mut rng));
+        out.push(iirc_line(&mut rng));
         out.push(lowpass_check(&mut rng));
         out.push(hilbert_check(&mut rng));
         out.push(quad_check(&mut rng));
